@@ -68,7 +68,7 @@ struct SplineAdapter final : ISpline
                : mode == 2 ? S(p.T, toMat(p.P), p.t0)
                            : S(p.timePoints(), toMat(p.P));
     }
-    SplineAdapter(const Problem &p, int mode) : own(construct(p, mode)), held(&own.getTrajectory()) {}
+    SplineAdapter(const Problem &p, int mode) : own(construct(p, mode)), held(&own.getTrajectory()) { prequery(); }
 
     // how the exposed trajectory is reached (g_routes.access)
     template <class F>
@@ -164,6 +164,59 @@ struct SplineAdapter final : ISpline
         return r;
     }
 
+    // held-reference consumption (g_routes.hold): `call` and `other` return exactly what the library returns
+    template <class F1, class F2, class Conv>
+    static auto consume(F1 &&call, F2 &&other, Conv &&conv)
+    {
+        if (g_routes.hold)
+        {
+            const auto &r = call();
+            const auto &r2 = other();
+            (void)r2;
+            return conv(r);
+        }
+        return conv(call());
+    }
+    // one extra read-only query right after a construction / update (g_routes.prequery)
+    void prequery()
+    {
+        if (!g_routes.prequery || !own.isInitialized())
+            return;
+        switch (g_routes.prequery)
+        {
+        case 1:
+            (void)own.getEnergy();
+            break;
+        case 2:
+            (void)own.getEnergyGrad();
+            break;
+        case 3:
+            (void)own.getEnergyGradBoundary();
+            break;
+        case 4:
+            (void)own.getEnergyGradTimes();
+            break;
+        case 5:
+            (void)own.getEnergyGradInnerPoints();
+            break;
+        case 6:
+            (void)own.getEnergyPartialGradByCoeffs();
+            break;
+        case 7:
+            (void)own.getEnergyPartialGradByTimes();
+            break;
+        case 8:
+        {
+            Mat m = Mat::Constant(own.getNumSegments() * S::COEFF_NUM, DIM, 0.5);
+            (void)own.propagateGrad(m, VectorXd::Constant(own.getNumSegments(), 0.25));
+            break;
+        }
+        default:
+            (void)own.getTrajectory().evaluate(own.getStartTime(), 1);
+            break;
+        }
+    }
+
     int order() const override { return ORDER; }
     int dim() const override { return DIM; }
     void updateDur(const std::vector<double> &T, const MatrixXd &P, double t0, const BC &bc) override
@@ -180,6 +233,7 @@ struct SplineAdapter final : ISpline
         }
         else
             own.update(T, toMat(P), t0, toBC(bc));
+        prequery();
     }
     void updatePts(const std::vector<double> &tp, const MatrixXd &P, const BC &bc) override
     {
@@ -194,6 +248,7 @@ struct SplineAdapter final : ISpline
         }
         else
             own.update(tp, toMat(P), toBC(bc));
+        prequery();
     }
     void updateDurDefaultBC(const std::vector<double> &T, const MatrixXd &P, double t0) override
     {
@@ -208,6 +263,7 @@ struct SplineAdapter final : ISpline
         }
         else
             own.update(T, toMat(P), t0);
+        prequery();
     }
     void updatePtsDefaultBC(const std::vector<double> &tp, const MatrixXd &P) override
     {
@@ -221,6 +277,7 @@ struct SplineAdapter final : ISpline
         }
         else
             own.update(tp, toMat(P));
+        prequery();
     }
     // the object's own getters passed straight back into update() (warm restart / re-timing idiom): arguments alias members
     void updateFromOwnGetters(int which, double t0) override
@@ -229,6 +286,7 @@ struct SplineAdapter final : ISpline
             own.update(own.getTimeSegments(), own.getSpacePoints(), t0, own.getBoundaryConditions());
         else
             own.update(own.getCumulativeTimes(), own.getSpacePoints(), own.getBoundaryConditions());
+        prequery();
     }
     // a reference bound to the result of a copy getter must be a snapshot: unaffected by a later update of the source
     void copyRefThenUpdate(bool ppolyName, const std::vector<double> &T, const MatrixXd &P, double t0, const BC &bc, MatrixXd &coeffsOut, std::vector<double> &bpOut) override
@@ -275,10 +333,16 @@ struct SplineAdapter final : ISpline
             own.getEnergyGrad(g);
             return fromG(g);
         }
-        return fromG(own.getEnergyGrad());
+        return consume([&]() -> decltype(auto) { return own.getEnergyGrad(); }, [&]() -> decltype(auto) { return own.getEnergyGrad(); }, [](const G &g) { return fromG(g); });
     }
-    VectorXd energyGradTimes() const override { return own.getEnergyGradTimes(); }
-    MatrixXd energyGradInner() const override { return fromMat(own.getEnergyGradInnerPoints()); }
+    VectorXd energyGradTimes() const override
+    {
+        return consume([&]() -> decltype(auto) { return own.getEnergyGradTimes(); }, [&]() -> decltype(auto) { return own.getEnergyPartialGradByTimes(); }, [](const VectorXd &v) { return VectorXd(v); });
+    }
+    MatrixXd energyGradInner() const override
+    {
+        return consume([&]() -> decltype(auto) { return own.getEnergyGradInnerPoints(); }, [&]() -> decltype(auto) { return own.getEnergyPartialGradByCoeffs(); }, [](const Mat &m) { return fromMat(m); });
+    }
     void energyGradBoundary(MatrixXd &start, MatrixXd &end) const override
     {
         auto b = own.getEnergyGradBoundary();
@@ -293,7 +357,7 @@ struct SplineAdapter final : ISpline
             own.getEnergyPartialGradByCoeffs(m);
             return fromMat(m);
         }
-        return fromMat(own.getEnergyPartialGradByCoeffs());
+        return consume([&]() -> decltype(auto) { return own.getEnergyPartialGradByCoeffs(); }, [&]() -> decltype(auto) { return own.getEnergyGradInnerPoints(); }, [](const Mat &m) { return fromMat(m); });
     }
     VectorXd partialT(bool refOverload) const override
     {
@@ -303,7 +367,7 @@ struct SplineAdapter final : ISpline
             own.getEnergyPartialGradByTimes(v);
             return v;
         }
-        return own.getEnergyPartialGradByTimes();
+        return consume([&]() -> decltype(auto) { return own.getEnergyPartialGradByTimes(); }, [&]() -> decltype(auto) { return own.getEnergyGradTimes(); }, [](const VectorXd &v) { return VectorXd(v); });
     }
     Grads propagate(const MatrixXd &gC, const VectorXd &gT, bool refOverload) override
     {
@@ -314,7 +378,9 @@ struct SplineAdapter final : ISpline
             own.propagateGrad(m, gT, g);
             return fromG(g);
         }
-        return fromG(own.propagateGrad(m, gT));
+        Mat m2 = m * 2.0 + Mat::Constant(m.rows(), DIM, 1.0);
+        VectorXd gT2 = gT * -0.5 + VectorXd::Constant(gT.size(), 0.75);
+        return consume([&]() -> decltype(auto) { return own.propagateGrad(m, gT); }, [&]() -> decltype(auto) { return own.propagateGrad(m2, gT2); }, [](const G &g) { return fromG(g); });
     }
     Grads propagateIntoStale(const MatrixXd &gC, const VectorXd &gT, int staleRows) override
     {
@@ -397,12 +463,14 @@ struct SplineAdapter final : ISpline
     }
     VectorXd trajEval(double t, int k) const override
     {
-        return withTraj([&](const TT &tr) { return fromVec(tr.evaluate(t, k)); });
+        return withTraj([&](const TT &tr)
+                        { return consume([&]() -> decltype(auto) { return tr.evaluate(t, k); }, [&]() -> decltype(auto) { return tr.evaluate(t + 0.37, k); }, [](const Vec &v) { return fromVec(v); }); });
     }
     VectorXd ppolyEval(double t, int k) const override { return fromVec(own.getPPoly().evaluate(t, k)); }
     VectorXd segEval(int i, double tl, int k) const override
     {
-        return withTraj([&](const TT &tr) { return fromVec(tr[i].evaluate(tl, k)); });
+        return withTraj([&](const TT &tr)
+                        { return consume([&]() -> decltype(auto) { return tr[i].evaluate(tl, k); }, [&]() -> decltype(auto) { return tr[i].evaluate(tl * 0.5 + 0.01, k); }, [](const Vec &v) { return fromVec(v); }); });
     }
     int trajNumSegments() const override
     {
@@ -450,6 +518,38 @@ struct SplineAdapter final : ISpline
     }
 };
 
+// computed while this translation unit's namespace-scope objects are being initialised, i.e. before main()
+struct StaticInitProbe
+{
+    StaticInitRecord rec;
+    StaticInitProbe()
+    {
+        using A = SplineAdapter<VORDER, VDIM>;
+        rec.p = staticInitProblem(VORDER, VDIM);
+        const Problem &p = rec.p;
+        typename A::S s(p.T, A::toMat(p.P), p.t0, A::toBC(p.bc));
+        const int nc = A::S::COEFF_NUM;
+        rec.gC = MatrixXd(nc * p.N, VDIM);
+        for (int i = 0; i < rec.gC.rows(); ++i)
+            for (int j = 0; j < VDIM; ++j)
+                rec.gC(i, j) = std::cos(0.37 * i + 0.91 * j);
+        rec.gT = VectorXd(p.N);
+        for (int i = 0; i < p.N; ++i)
+            rec.gT(i) = 0.5 - 0.3 * i;
+        rec.C = A::fromMat(s.getTrajectory().getCoefficients());
+        rec.E = s.getEnergy();
+        rec.eg = A::fromG(s.getEnergyGrad());
+        rec.pg = A::fromG(s.propagateGrad(A::toMat(rec.gC), rec.gT));
+        const double ts[3] = {p.t0, p.t0 + 1.1, p.t0 + 2.9};
+        rec.evals.resize(9, VDIM);
+        int row = 0;
+        for (double t : ts)
+            for (int k = 0; k < 3; ++k)
+                rec.evals.row(row++) = A::fromVec(s.getTrajectory().evaluate(t, k)).transpose();
+    }
+};
+static const StaticInitProbe static_init_probe;
+
 struct Registrar
 {
     Registrar()
@@ -457,6 +557,7 @@ struct Registrar
         SplineFactory f;
         f.order = VORDER;
         f.dim = VDIM;
+        f.staticInit = &static_init_probe.rec;
         f.makeDefault = []() { return std::unique_ptr<ISpline>(new SplineAdapter<VORDER, VDIM>()); };
         f.makeCtor = [](const Problem &p, int mode)
         { return std::unique_ptr<ISpline>(new SplineAdapter<VORDER, VDIM>(p, mode)); };
